@@ -1,6 +1,8 @@
 (* C15 driver.
    input  (S fx limit <query cps> <root node>)  -> (ok 0|1) | (exn Name)      bool(QueryHandler(q).search(s))
           (C fx limit <query cps>)              -> (ok ntokens balanced) | (exn Name balanced)   compile only
+          (E fx limit <query cps> <root node> (steps...))  -> as S, on the object after the history;
+             step = (A (path...) node) append | (R (path...) node) replace | (Q <query cps>) a search in between
    fx = 1: the repaired code (fix: commits), limit = available nesting depth
    node = (T id (terms...) short org) | (G id (children...)); a term/short/org is a list of code points *)
 let exn_sx (e : exn) : sx = A (match e with
@@ -18,6 +20,17 @@ let () = main_loop (fun x ->
   match x with
   | L [A "S"; fx; lim; q; root] ->
     (match search (sx_bool fx) (sx_nat lim) (sx_str q) (sx_node root) with
+     | Ok b -> L [A "ok"; bool_sx b]
+     | Exn e -> L [A "exn"; exn_sx e])
+  | L [A "E"; fx; lim; q; root; L steps] ->
+    let fxb = sx_bool fx and l = sx_nat lim in
+    let step x = match x with
+      | L [A "A"; L p; n] -> StEdit (EdAppend (List.map sx_nat p, sx_node n))
+      | L [A "R"; L p; n] -> StEdit (EdReplace (List.map sx_nat p, sx_node n))
+      | L [A "Q"; q2] -> StSearch (sx_str q2)
+      | _ -> failwith "bad-step" in
+    let o = List.fold_left (fun o s -> run_step fxb l o (step s)) { o_src = []; o_root = sx_node root } steps in
+    (match obj_search fxb l (sx_str q) o with
      | Ok b -> L [A "ok"; bool_sx b]
      | Exn e -> L [A "exn"; exn_sx e])
   | L [A "C"; fx; lim; q] ->
